@@ -4,8 +4,8 @@ import AbraModel.PatMatrix
 
 Follows `translate_pat_comparison`, `translate_product_pat_comparison`, `traverse_arm_pat`,
 `handle_pat_binding` and the `ExprKind::Match` arm of `translate_expr`, instruction by instruction,
-as the code is (including the shared `or_pat_decisions` set of the arm loop, D27), with the repaired
-behaviour of the defects whose fixes are in flight (D46, D47; marked where they apply).
+as the code is after the repairs D27 (the arm loop enumerates every combination of or-pattern
+alternatives like a binary counter; decision sets are read-only while code is emitted), D46 and D47.
 
 * `SVal`, `repr`      — run-time values and the representation of a typed value: `void` components are
                          not stored in tuples/structs; a variant holds its tag and ONE payload (no
@@ -18,10 +18,11 @@ behaviour of the defects whose fixes are in flight (D46, D47; marked where they 
 * labels              — `make_label` produces globally fresh names; the model names a label by the path of
                          the pattern node that creates it plus a kind, so freshness is structural.
 * `cmp`, `prodCode`, `cmpElems` — `translate_pat_comparison`, `translate_product_pat_comparison`
-* `traverse`          — `traverse_arm_pat` (is some or-pattern still on its left alternative?)
+* `traverse`          — `traverse_arm_pat` (the or-patterns reached under the current decisions, in order)
 * `bind`              — `handle_pat_binding`
-* `matchCode`         — the `ExprKind::Match` code: one comparison pass per round of the decision loop,
-                         then one labelled body per pass.
+* `lastLeft`, `nextDecisions`, `armPasses` — the binary-counter loop of one arm
+* `matchCode`         — the `ExprKind::Match` code: one comparison pass per combination, then one
+                         labelled body per pass (bound under the decisions of that pass).
 -/
 namespace Abra.PatCompile
 open Abra.PatMatrix
@@ -144,155 +145,122 @@ def failChain (π : Path) : Nat → List Ty → List Instr
   | i, t :: ts => (if t.isVoid then [] else [Instr.pop]) ++ [.label (lblFail π i)] ++ failChain π (i + 1) ts
 
 /-- `translate_product_pat_comparison` around the element loop `elems` -/
-def prodCode (π : Path) (tys : List Ty) (ps : List Pat) (elems : List Instr × List Path) (D : List Path) :
-    List Instr × List Path :=
-  if ps.isEmpty then ([.pop, .pushBool true], D)
+def prodCode (π : Path) (tys : List Ty) (ps : List Pat) (elems : List Instr) : List Instr :=
+  if ps.isEmpty then [.pop, .pushBool true]
   else
-    ([.deconStruct] ++ elems.1 ++
+    [.deconStruct] ++ elems ++
       [.label (lblSuccess π), .pushBool true, .jump (lblEndTuple π), .label (lblFail π 0)] ++
-      failChain π 1 (tys.drop 1) ++ [.pushBool false, .label (lblEndTuple π)], elems.2)
+      failChain π 1 (tys.drop 1) ++ [.pushBool false, .label (lblEndTuple π)]
+
+/-- the code shared by every variant pattern whose payload is not looked at -/
+def voidCase (π : Path) (idx : Nat) : List Instr :=
+  [.deconVariant, .pushInt idx, .eqInt, .jumpIfFalse (lblTagFail π),
+   .pop, .pushBool true, .jump (lblEndVariant π),
+   .label (lblTagFail π), .pop, .pushBool false, .label (lblEndVariant π)]
+
+/-- tag test around the comparison of the payload -/
+def variantWrap (π : Path) (idx : Nat) (inner : List Instr) : List Instr :=
+  [.deconVariant, .pushInt idx, .eqInt, .jumpIfFalse (lblTagFail π)] ++ inner ++
+    [.jump (lblEndVariant π), .label (lblTagFail π), .pop, .pushBool false, .label (lblEndVariant π)]
 
 mutual
-  /-- `translate_pat_comparison`; returns the code and the updated decision set -/
-  def cmp (env : EnumEnv) : Path → Ty → Pat → List Path → List Instr × List Path
-    | _, ty, .wild, D => ((if ty.isVoid then [] else [.pop]) ++ [.pushBool true], D)
-    | _, ty, .bind _, D => ((if ty.isVoid then [] else [.pop]) ++ [.pushBool true], D)
-    | _, ty, .void, D => ((if ty.isVoid then [] else [.pop]) ++ [.pushBool true], D)
+  /-- `translate_pat_comparison`; the decision set `D` (the or-patterns that are on their right
+      alternative) is only read -/
+  def cmp (env : EnumEnv) : Path → Ty → Pat → List Path → List Instr
+    | _, ty, .wild, _ => (if ty.isVoid then [] else [.pop]) ++ [.pushBool true]
+    | _, ty, .bind _, _ => (if ty.isVoid then [] else [.pop]) ++ [.pushBool true]
+    | _, ty, .void, _ => (if ty.isVoid then [] else [.pop]) ++ [.pushBool true]
     | π, ty, .or l r, D =>
-      if D.contains π then cmp env (π ++ [1]) ty r D
-      else
-        let res := cmp env (π ++ [0]) ty l D
-        (res.1, π :: res.2)
-    | _, _, .int i, D => ([.pushInt i, .eqInt], D)
-    | _, _, .float f, D => ([.pushFloat f, .eqFloat], D)
-    | _, _, .bool b, D => ([.pushBool b, .eqBool], D)
-    | _, _, .str s, D => ([.pushStr s, .eqStr], D)
-    | π, ty, .tuple ps, D => prodCode π (productTys ty) ps (cmpElems env π 0 (productTys ty) ps D) D
-    | π, ty, .struct _ ps, D => prodCode π (productTys ty) ps (cmpElems env π 0 (productTys ty) ps D) D
-    | π, _, .variant0 _ idx, D =>
-      ([.deconVariant, .pushInt idx, .eqInt, .jumpIfFalse (lblTagFail π),
-        .pop, .pushBool true, .jump (lblEndVariant π),
-        .label (lblTagFail π), .pop, .pushBool false, .label (lblEndVariant π)], D)
+      if D.contains π then cmp env (π ++ [1]) ty r D else cmp env (π ++ [0]) ty l D
+    | _, _, .int i, _ => [.pushInt i, .eqInt]
+    | _, _, .float f, _ => [.pushFloat f, .eqFloat]
+    | _, _, .bool b, _ => [.pushBool b, .eqBool]
+    | _, _, .str s, _ => [.pushStr s, .eqStr]
+    | π, ty, .tuple ps, D => prodCode π (productTys ty) ps (cmpElems env π 0 (productTys ty) ps D)
+    | π, ty, .struct _ ps, D => prodCode π (productTys ty) ps (cmpElems env π 0 (productTys ty) ps D)
+    | π, _, .variant0 _ idx, _ => voidCase π idx
     | π, _, .variantPos e idx p, D =>
       let innerTy := dataTy env e idx
-      if innerTy.isVoid then
-        ([.deconVariant, .pushInt idx, .eqInt, .jumpIfFalse (lblTagFail π),
-          .pop, .pushBool true, .jump (lblEndVariant π),
-          .label (lblTagFail π), .pop, .pushBool false, .label (lblEndVariant π)], D)
-      else
-        let res := cmp env (π ++ [0]) innerTy p D
-        ([.deconVariant, .pushInt idx, .eqInt, .jumpIfFalse (lblTagFail π)] ++ res.1 ++
-          [.jump (lblEndVariant π), .label (lblTagFail π), .pop, .pushBool false, .label (lblEndVariant π)],
-         res.2)
+      if innerTy.isVoid then voidCase π idx
+      else variantWrap π idx (cmp env (π ++ [0]) innerTy p D)
     | π, _, .variantNamed e idx ps, D =>
       let ftys := (variantFields env e idx).getD []
       if ps.length == 1 then
         let t := ftys.headD .void
-        if t.isVoid then
-          ([.deconVariant, .pushInt idx, .eqInt, .jumpIfFalse (lblTagFail π),
-            .pop, .pushBool true, .jump (lblEndVariant π),
-            .label (lblTagFail π), .pop, .pushBool false, .label (lblEndVariant π)], D)
-        else
-          let res := cmpFirst env π t ps D
-          ([.deconVariant, .pushInt idx, .eqInt, .jumpIfFalse (lblTagFail π)] ++ res.1 ++
-            [.jump (lblEndVariant π), .label (lblTagFail π), .pop, .pushBool false, .label (lblEndVariant π)],
-           res.2)
-      else
-        let res := prodCode π ftys ps (cmpElems env π 0 ftys ps D) D
-        ([.deconVariant, .pushInt idx, .eqInt, .jumpIfFalse (lblTagFail π)] ++ res.1 ++
-          [.jump (lblEndVariant π), .label (lblTagFail π), .pop, .pushBool false, .label (lblEndVariant π)],
-         res.2)
+        if t.isVoid then voidCase π idx
+        else variantWrap π idx (cmpFirst env π t ps D)
+      else variantWrap π idx (prodCode π ftys ps (cmpElems env π 0 ftys ps D))
   /-- the single named field `pats[0]` -/
-  def cmpFirst (env : EnumEnv) : Path → Ty → List Pat → List Path → List Instr × List Path
+  def cmpFirst (env : EnumEnv) : Path → Ty → List Pat → List Path → List Instr
     | π, t, p :: _, D => cmp env (π ++ [0]) t p D
-    | _, _, [], D => ([], D)
+    | _, _, [], _ => []
   /-- the loop over the elements: compare, `JumpIfFalse fail_i`, after the last one `Jump success` -/
-  def cmpElems (env : EnumEnv) : Path → Nat → List Ty → List Pat → List Path → List Instr × List Path
-    | _, _, _, [], D => ([], D)
+  def cmpElems (env : EnumEnv) : Path → Nat → List Ty → List Pat → List Path → List Instr
+    | _, _, _, [], _ => []
     | π, i, tys, p :: ps, D =>
-      let res := cmp env (π ++ [i]) (tys.headD .void) p D
-      let rest := cmpElems env π (i + 1) (tys.drop 1) ps res.2
-      (res.1 ++ [.jumpIfFalse (lblFail π i)] ++ (if ps.isEmpty then [.jump (lblSuccess π)] else []) ++ rest.1,
-       rest.2)
+      cmp env (π ++ [i]) (tys.headD .void) p D ++ [.jumpIfFalse (lblFail π i)] ++
+        (if ps.isEmpty then [.jump (lblSuccess π)] else []) ++ cmpElems env π (i + 1) (tys.drop 1) ps D
 end
 
 /-! ## `traverse_arm_pat` -/
 
 mutual
-  /-- does the walk (under the current decisions) pass an or-pattern on its left alternative?
-      Repaired behaviour (D47): a void-typed single inner pattern is skipped, exactly as
-      `translate_pat_comparison` skips it (the unrepaired code tests the variant pattern's own type,
-      walks into it, and the arm loop never ends when it contains an or-pattern). -/
-  def traverse (env : EnumEnv) : Path → Pat → List Path → Bool
+  /-- the or-patterns reached under the current decisions, left to right (a void-typed single inner
+      pattern is skipped, exactly as `translate_pat_comparison` skips it) -/
+  def traverse (env : EnumEnv) : Path → Pat → List Path → List Path
     | π, .tuple ps, D => traverseList env π 0 ps D
     | π, .struct _ ps, D => traverseList env π 0 ps D
     | π, .variantPos e idx p, D =>
-      if (dataTy env e idx).isVoid then false else traverse env (π ++ [0]) p D
+      if (dataTy env e idx).isVoid then [] else traverse env (π ++ [0]) p D
     | π, .variantNamed e idx ps, D =>
       if ps.length == 1 then
-        if (((variantFields env e idx).getD []).headD .void).isVoid then false else traverseList env π 0 ps D
+        if (((variantFields env e idx).getD []).headD .void).isVoid then [] else traverseList env π 0 ps D
       else traverseList env π 0 ps D
     | π, .or l r, D =>
-      if D.contains π then traverse env (π ++ [1]) r D
-      else
-        let _ := traverse env (π ++ [0]) l D
-        true
-    | _, _, _ => false
-  def traverseList (env : EnumEnv) : Path → Nat → List Pat → List Path → Bool
-    | _, _, [], _ => false
-    | π, i, p :: ps, D =>
-      let a := traverse env (π ++ [i]) p D
-      let b := traverseList env π (i + 1) ps D
-      a || b
+      π :: (if D.contains π then traverse env (π ++ [1]) r D else traverse env (π ++ [0]) l D)
+    | _, .wild, _ => []
+    | _, .bind _, _ => []
+    | _, .bool _, _ => []
+    | _, .int _, _ => []
+    | _, .float _, _ => []
+    | _, .str _, _ => []
+    | _, .void, _ => []
+    | _, .variant0 _ _, _ => []
+  def traverseList (env : EnumEnv) : Path → Nat → List Pat → List Path → List Path
+    | _, _, [], _ => []
+    | π, i, p :: ps, D => traverse env (π ++ [i]) p D ++ traverseList env π (i + 1) ps D
 end
 
 /-! ## Binding code -/
 
 mutual
-  /-- `handle_pat_binding` -/
-  def bind (env : EnumEnv) : Path → Ty → Pat → List Path → List Instr × List Path
-    | _, ty, .bind x, D => (if ty.isVoid then [] else [.store x], D)
-    | π, ty, .tuple ps, D =>
-      let res := bindList env π 0 (productTys ty) ps D
-      ([.deconStruct] ++ res.1, res.2)
-    | π, ty, .struct _ ps, D =>
-      let res := bindList env π 0 (productTys ty) ps D
-      ([.deconStruct] ++ res.1, res.2)
-    | _, _, .variant0 _ _, D => ([.pop], D)
+  /-- `handle_pat_binding` (decisions read-only) -/
+  def bind (env : EnumEnv) : Path → Ty → Pat → List Path → List Instr
+    | _, ty, .bind x, _ => if ty.isVoid then [] else [.store x]
+    | π, ty, .tuple ps, D => [.deconStruct] ++ bindList env π 0 (productTys ty) ps D
+    | π, ty, .struct _ ps, D => [.deconStruct] ++ bindList env π 0 (productTys ty) ps D
+    | _, _, .variant0 _ _, _ => [.pop]
     | π, _, .variantPos e idx p, D =>
-      -- repaired behaviour (D47): a void payload is popped with the variant (`void_case`); the
-      -- unrepaired code tests the variant pattern's own type and leaves the `nil` payload behind
-      if (dataTy env e idx).isVoid then ([.pop], D)
-      else
-        let res := bind env (π ++ [0]) (dataTy env e idx) p D
-        ([.deconVariant, .pop] ++ res.1, res.2)
+      if (dataTy env e idx).isVoid then [.pop]
+      else [.deconVariant, .pop] ++ bind env (π ++ [0]) (dataTy env e idx) p D
     | π, _, .variantNamed e idx ps, D =>
       let ftys := (variantFields env e idx).getD []
       if ps.length == 1 then
-        if (ftys.headD .void).isVoid then ([.pop], D)
-        else
-          let res := bindList env π 0 ftys ps D
-          ([.deconVariant, .pop] ++ res.1, res.2)
-      else
-        let res := bindList env π 0 ftys ps D
-        ([.deconVariant, .pop, .deconStruct] ++ res.1, res.2)
+        if (ftys.headD .void).isVoid then [.pop]
+        else [.deconVariant, .pop] ++ bindList env π 0 ftys ps D
+      else [.deconVariant, .pop, .deconStruct] ++ bindList env π 0 ftys ps D
     | π, ty, .or l r, D =>
-      if D.contains π then bind env (π ++ [1]) ty r D
-      else
-        let res := bind env (π ++ [0]) ty l D
-        (res.1, π :: res.2)
-    | _, _, .void, D => ([], D)
-    | _, ty, .wild, D => (if ty.isVoid then [] else [.pop], D)
-    | _, _, .bool _, D => ([.pop], D)
-    | _, _, .int _, D => ([.pop], D)
-    | _, _, .float _, D => ([.pop], D)
-    | _, _, .str _, D => ([.pop], D)
-  def bindList (env : EnumEnv) : Path → Nat → List Ty → List Pat → List Path → List Instr × List Path
-    | _, _, _, [], D => ([], D)
+      if D.contains π then bind env (π ++ [1]) ty r D else bind env (π ++ [0]) ty l D
+    | _, _, .void, _ => []
+    | _, ty, .wild, _ => if ty.isVoid then [] else [.pop]
+    | _, _, .bool _, _ => [.pop]
+    | _, _, .int _, _ => [.pop]
+    | _, _, .float _, _ => [.pop]
+    | _, _, .str _, _ => [.pop]
+  def bindList (env : EnumEnv) : Path → Nat → List Ty → List Pat → List Path → List Instr
+    | _, _, _, [], _ => []
     | π, i, tys, p :: ps, D =>
-      let res := bind env (π ++ [i]) (tys.headD .void) p D
-      let rest := bindList env π (i + 1) (tys.drop 1) ps res.2
-      (res.1 ++ rest.1, rest.2)
+      bind env (π ++ [i]) (tys.headD .void) p D ++ bindList env π (i + 1) (tys.drop 1) ps D
 end
 
 /-! ## The match expression -/
@@ -301,7 +269,7 @@ def lblArm (pass : Nat) : Label := ⟨[], 100 + pass⟩
 def lblEndMatch : Label := ⟨[], 99⟩
 
 mutual
-  /-- number of or-patterns in a pattern (bounds the rounds of the decision loop) -/
+  /-- number of or-patterns in a pattern (`2 ^ orCount` bounds the passes of the arm loop) -/
   def orCount : Pat → Nat
     | .or l r => 1 + orCount l + orCount r
     | .tuple ps => orCountList ps
@@ -314,41 +282,50 @@ mutual
     | p :: ps => orCount p + orCountList ps
 end
 
-/-- the `loop { … if !went_left { break } }` of one arm: for every pass the decision set it was
-    compiled under and its comparison code, and the decision set afterwards; `pass` numbers the passes
-    globally -/
-def armPasses (env : EnumEnv) (ty : Ty) (a : Nat) (p : Pat) :
-    Nat → Nat → List Path → List (List Path × List Instr) × List Path
-  | 0, _, D => ([], D)
+/-- `rposition(|or_pat| !or_pat_decisions.contains(or_pat))`: index of the last reached or-pattern
+    that is still on its left alternative -/
+def lastLeft : List Path → List Path → Option Nat
+  | [], _ => none
+  | π :: rest, D =>
+    match lastLeft rest D with
+    | some i => some (i + 1)
+    | none => if D.contains π then none else some 0
+
+/-- the binary-counter step: the or-pattern at `i` moves to its right alternative, the reached
+    or-patterns after it start over (`insert`, then `remove` for each later one) -/
+def nextDecisions (orPats : List Path) (i : Nat) (D : List Path) : List Path :=
+  ((orPats.getD i []) :: D).filter (fun π => !(orPats.drop (i + 1)).contains π)
+
+/-- the `loop { … }` of one arm: one pass per combination of alternatives; every pass records the
+    decision set it was compiled under (the bindings are taken under the same set) -/
+def armPasses (env : EnumEnv) (ty : Ty) (a : Nat) (p : Pat) : Nat → Nat → List Path → List (List Path × List Instr)
+  | 0, _, _ => []
   | fuel + 1, pass, D =>
-    let wentLeft := traverse env [a] p D
-    let res := cmp env [a] ty p D
-    let code := [Instr.dup] ++ res.1 ++ [.jumpIf (lblArm pass)]
-    if wentLeft then
-      let rest := armPasses env ty a p fuel (pass + 1) res.2
-      ((D, code) :: rest.1, rest.2)
-    else ([(D, code)], res.2)
+    let orPats := traverse env [a] p D
+    let code := [Instr.dup] ++ cmp env [a] ty p D ++ [.jumpIf (lblArm pass)]
+    match lastLeft orPats D with
+    | none => [(D, code)]
+    | some i => (D, code) :: armPasses env ty a p fuel (pass + 1) (nextDecisions orPats i D)
 
-/-- comparison part of the match: all passes of all arms as (arm index, decisions, code) -/
-def allPasses (env : EnumEnv) (ty : Ty) : Nat → List Pat → Nat → List Path → List (Nat × List Path × List Instr)
-  | _, [], _, _ => []
-  | a, p :: ps, pass, D =>
-    let res := armPasses env ty a p (orCount p + 1) pass D
-    (res.1.map (fun c => (a, c))) ++ allPasses env ty (a + 1) ps (pass + res.1.length) res.2
-
-/-- bodies: `label arm; handle_pat_binding; body; jump end` per pass, decisions shared (fresh set) -/
-def bodies (env : EnumEnv) (ty : Ty) (arms : List Pat) :
-    Nat → List (Nat × List Path × List Instr) → List Path → List Instr
+/-- comparison part of the match: all passes of all arms as (arm index, decisions, code); every arm
+    starts from the empty decision set -/
+def allPasses (env : EnumEnv) (ty : Ty) : Nat → List Pat → Nat → List (Nat × List Path × List Instr)
   | _, [], _ => []
-  | pass, (a, _) :: rest, D =>
-    let res := bind env [a] ty (arms.getD a .wild) D
-    [.label (lblArm pass)] ++ res.1 ++ [.enter pass] ++
-      (if rest.isEmpty then [] else [.jump lblEndMatch]) ++ bodies env ty arms (pass + 1) rest res.2
+  | a, p :: ps, pass =>
+    let res := armPasses env ty a p (2 ^ orCount p) pass []
+    (res.map (fun c => (a, c))) ++ allPasses env ty (a + 1) ps (pass + res.length)
+
+/-- bodies: `label arm; handle_pat_binding (under the pass' decisions); body; jump end` per pass -/
+def bodies (env : EnumEnv) (ty : Ty) (arms : List Pat) : Nat → List (Nat × List Path × List Instr) → List Instr
+  | _, [] => []
+  | pass, (a, D, _) :: rest =>
+    [.label (lblArm pass)] ++ bind env [a] ty (arms.getD a .wild) D ++ [.enter pass] ++
+      (if rest.isEmpty then [] else [.jump lblEndMatch]) ++ bodies env ty arms (pass + 1) rest
 
 /-- `ExprKind::Match`: the code after the scrutinee has been pushed; also the arm of every pass -/
 def matchCode (env : EnumEnv) (ty : Ty) (arms : List Pat) : List Instr × List Nat :=
-  let passes := allPasses env ty 0 arms 0 []
-  (passes.flatMap (fun x => x.2.2) ++ bodies env ty arms 0 passes [] ++ [.label lblEndMatch],
+  let passes := allPasses env ty 0 arms 0
+  (passes.flatMap (fun x => x.2.2) ++ bodies env ty arms 0 passes ++ [.label lblEndMatch],
    passes.map (fun x => x.1))
 
 /-- run the match on a value: (arm taken, pass taken, bindings as stored, final stack) -/
@@ -364,7 +341,7 @@ def runMatch (env : EnumEnv) (ty : Ty) (arms : List Pat) (v : Val) (below : List
 def runLet (env : EnumEnv) (ty : Ty) (p : Pat) (v : Val) (below : List SVal) :
     Option (List (Nat × SVal) × List SVal) :=
   let st0 : St := { stack := (if ty.isVoid then below else repr env ty v :: below), locals := [], taken := none, skip := none }
-  match run (bind env [0] ty p []).1 st0 with
+  match run (bind env [0] ty p []) st0 with
   | none => none
   | some st => some (st.locals, st.stack)
 
